@@ -502,20 +502,21 @@ example : DependsOn exH 0 (some ⟨[⟨"m", "value"⟩, ⟨"q", "value"⟩], tru
 
 -- methods that assign: `relay` (on p0) assigns p1 then p2; `sink` watches p1 and p2 and runs once per assignment,
 -- whichever way p0 was changed; a block nested in a block is delivered once, at the outer exit
+-- (kernel evaluation: the elaborator's `whnf` does not cope with the fuel-indexed interpreter)
 def cTable : List Entry := [⟨"relay", false, false, [⟨0, "p0", "value"⟩], 0⟩,
   ⟨"sink", false, false, [⟨0, "p1", "value"⟩, ⟨0, "p2", "value"⟩], 0⟩]
 def cVals : List (Key × Int) := [(⟨"p0", "value"⟩, 0), (⟨"p1", "value"⟩, 0), (⟨"p2", "value"⟩, 0)]
 def cBodies : Bodies := [("relay", [("p1", 1), ("p2", 1)])]
 def cRun (b : Blk) : Option (Bool × List Name) :=
-  (runC cBodies 24 (.blk b) (instantiate cTable cVals)).map (fun r => (r.1, T.allCallsL r.2.2))
-example : cRun (.set ⟨"p0", "value"⟩ 1) = some (true, ["relay", "sink", "sink"]) := by decide
-example : cRun (.update [("p0", 1)]) = some (true, ["relay", "sink", "sink"]) := by decide
-example : cRun (.batch [.set ⟨"p0", "value"⟩ 1]) = some (true, ["relay", "sink", "sink"]) := by decide
+  (runC cBodies 16 (.blk b) (instantiate cTable cVals)).map (fun r => (r.1, T.allCallsL r.2.2))
+example : cRun (.set ⟨"p0", "value"⟩ 1) = some (true, ["relay", "sink", "sink"]) := by decide +kernel
+example : cRun (.update [("p0", 1)]) = some (true, ["relay", "sink", "sink"]) := by decide +kernel
+example : cRun (.batch [.set ⟨"p0", "value"⟩ 1]) = some (true, ["relay", "sink", "sink"]) := by decide +kernel
 example : cRun (.batch [.set ⟨"p0", "value"⟩ 1, .batch [.set ⟨"p1", "value"⟩ 5], .set ⟨"p0", "value"⟩ 2]) =
-    some (true, ["relay", "sink", "sink", "sink"]) := by decide
-example : (runC cBodies 24 (.blk (.batch [.set ⟨"p0", "value"⟩ 1, .batch [.set ⟨"p1", "value"⟩ 5], .set ⟨"p0", "value"⟩ 2]))
+    some (true, ["relay", "sink", "sink", "sink"]) := by decide +kernel
+example : (runC cBodies 16 (.blk (.batch [.set ⟨"p0", "value"⟩ 1, .batch [.set ⟨"p1", "value"⟩ 5], .set ⟨"p0", "value"⟩ 2]))
     (instantiate cTable cVals)).map (fun r => (T.unitsL true r.2.2).map (fun u => (u.changed.map (·.name), u.calls))) =
-    some [(["p0", "p1", "p0"], ["relay", "sink"]), (["p1"], ["sink"]), (["p2"], ["sink"])] := by decide
+    some [(["p0", "p1", "p0"], ["relay", "sink"]), (["p1"], ["sink"]), (["p2"], ["sink"])] := by decide +kernel
 example : QW cBodies (instantiate cTable cVals) :=
   (instantiate_instanceWorld cTable cVals).quiet cBodies (instantiate_qlog cTable cVals cBodies (by decide))
 
